@@ -3,7 +3,7 @@
 Runs the checks against the independently written breaking changes kept under /verif/seeded/<id>/
 (patch.diff, demo, meta.json).  Each patch is applied to a scratch copy of the package (never to /repo), the
 demonstration is run with and without it, then the owning checks run against the patched copy via GFFUTILS_REPO.
-Result -> seeded/results.json.     usage: seeded.py [-k substring] [--tier quick]
+Result -> seeded/results.json.     usage: seeded.py [-k substr[,substr..]] [--tier quick] [--out file] [--merge parts..]
 """
 import argparse, json, os, shutil, subprocess, sys, tempfile, time
 
@@ -37,12 +37,22 @@ def main():
     ap = argparse.ArgumentParser()
     ap.add_argument("-k", default="")
     ap.add_argument("--tier", default="quick")
+    ap.add_argument("--out", default=os.path.join(SEEDED, "results.json"),
+                    help="result file (several runs in parallel write to files of their own: see --merge)")
+    ap.add_argument("--merge", nargs="*", help="merge these partial result files into --out and exit")
     a = ap.parse_args()
-    out_path = os.path.join(SEEDED, "results.json")
+    out_path = a.out
     results = json.load(open(out_path)) if os.path.exists(out_path) else {}
+    if a.merge is not None:
+        for part in a.merge:
+            results.update(json.load(open(part)))
+        json.dump(results, open(out_path, "w"), indent=1, sort_keys=True)
+        print("merged %d files -> %s (%d entries)" % (len(a.merge), out_path, len(results)))
+        return
+    wanted = [k for k in a.k.split(",") if k]
     for name in sorted(os.listdir(SEEDED)):
         sdir = os.path.join(SEEDED, name)
-        if not os.path.isdir(sdir) or (a.k and a.k not in name):
+        if not os.path.isdir(sdir) or (wanted and not any(k in name for k in wanted)):
             continue
         meta = json.load(open(os.path.join(sdir, "meta.json")))
         entry = {"property": meta["property"], "needs": meta.get("needs")}
